@@ -10,6 +10,7 @@
 (*   <<7,<<d1,d2>>>> Time    <<8,k>> Duration (1..6: D W M Q S A)          *)
 (*   <<9,code>> error marker (an operation VTL defines as an error)        *)
 (*   <<11,0>>  "some non-null Number" (uninterpreted transcendental result)*)
+(*   <<12,q>>  "the square root of q"      <<14,0>> undetermined by VTL     *)
 (* Numbers are normalised rationals (den > 0, gcd = 1).  TLC integers are  *)
 (* 32 bit: generators keep magnitudes small, overflow aborts TLC (never a  *)
 (* silent wrong verdict).                                                  *)
@@ -25,6 +26,9 @@ Err(code) == <<9, code>>
 IsErr(v) == v[1] = 9
 AnyNum == <<11, 0>>
 IsAny(v) == v[1] = 11
+\* <<14,0>>: VTL (as read in READINGS.md) does not determine the value; matches any observation
+Undet == <<14, 0>>
+IsUndet(v) == v[1] = 14
 
 Abs(n) == IF n < 0 THEN -n ELSE n
 Sgn(n) == IF n < 0 THEN -1 ELSE IF n = 0 THEN 0 ELSE 1
@@ -67,8 +71,9 @@ MulQ(a, b) == LET g1 == Gcd(Abs(Nu(a)), De(b))
 
 -----------------------------------------------------------------------------
 (* Generic null / error / wildcard propagation for strict operators *)
-Strict1(a, f(_)) == IF IsErr(a) THEN a ELSE IF IsNull(a) THEN Null ELSE f(a)
+Strict1(a, f(_)) == IF IsErr(a) THEN a ELSE IF IsUndet(a) THEN Undet ELSE IF IsNull(a) THEN Null ELSE f(a)
 Strict2(a, b, f(_, _)) == IF IsErr(a) THEN a ELSE IF IsErr(b) THEN b
+                          ELSE IF IsUndet(a) \/ IsUndet(b) THEN Undet
                           ELSE IF IsNull(a) \/ IsNull(b) THEN Null ELSE f(a, b)
 
 -----------------------------------------------------------------------------
@@ -83,9 +88,9 @@ MulV(a, b) == Strict2(a, b, LAMBDA x, y :
                  IF IsAny(x) \/ IsAny(y) THEN AnyNum
                  ELSE IF IsInt(x) /\ IsInt(y) THEN I(x[2] * y[2]) ELSE <<2, MulQ(x, y)>>)
 \* division always yields a Number; a zero divisor is a VTL runtime error
-DivV(a, b) == Strict2(a, b, LAMBDA x, y :
-                 IF (~IsAny(y)) /\ Nu(y) = 0 THEN Err("div0")
-                 ELSE IF IsAny(x) \/ IsAny(y) THEN AnyNum
+DivV(a, b) == IF (~IsErr(a)) /\ IsNumTag(b) /\ Nu(b) = 0 THEN Err("div0")      \* READINGS.md: null / 0 is an error too
+              ELSE Strict2(a, b, LAMBDA x, y :
+                 IF IsAny(x) \/ IsAny(y) THEN AnyNum
                  ELSE <<2, MulQ(x, <<2, IF Nu(y) < 0 THEN <<-De(y), -Nu(y)>> ELSE <<De(y), Nu(y)>>>>)>>)
 UPlusV(a) == a
 UMinusV(a) == Strict1(a, LAMBDA x : IF IsAny(x) THEN AnyNum ELSE NegV(x))
@@ -103,7 +108,8 @@ TruncV(a, k) == IF IsErr(a) THEN a ELSE IF IsNull(a) THEN Null
 \* mod: generators keep both operands' signs equal-or-zero cases documented in READINGS.md;
 \* truncated remainder (sign of the dividend), mod(x, 0) = x
 ModV(a, b) == Strict2(a, b, LAMBDA x, y :
-                 IF Nu(y) = 0 THEN x
+                 IF IsAny(x) \/ IsAny(y) THEN AnyNum
+                 ELSE IF Nu(y) <= 0 \/ Nu(x) < 0 THEN Undet      \* READINGS.md: sign convention / zero divisor
                  ELSE LET q == <<2, MulQ(x, <<2, IF Nu(y) < 0 THEN <<-De(y), -Nu(y)>> ELSE <<De(y), Nu(y)>>>>)>>
                           t == TruncQ(Nu(q), De(q))
                           r == <<2, AddQ(x, NegV(<<2, MulQ(I(t), y)>>))>>
@@ -113,7 +119,8 @@ PowQ(x, n) == IF n = 0 THEN R(1, 1) ELSE <<2, MulQ(x, PowQ(x, n - 1))>>
 \* power: exact for small non-negative Integer exponents, otherwise uninterpreted
 PowerV(a, b) == Strict2(a, b, LAMBDA x, y :
                    IF IsAny(x) \/ IsAny(y) THEN AnyNum
-                   ELSE IF IsInt(y) /\ y[2] >= 0 /\ y[2] <= 4 THEN PowQ(x, y[2]) ELSE AnyNum)
+                   ELSE IF IsInt(y) /\ y[2] >= 0 /\ y[2] <= 4 THEN PowQ(x, y[2])
+                   ELSE IF Nu(x) > 0 THEN AnyNum ELSE Undet)
 \* transcendental functions: domain, null behaviour only
 LnV(a) == Strict1(a, LAMBDA x : IF (~IsAny(x)) /\ Nu(x) <= 0 THEN Err("ln") ELSE AnyNum)
 ExpV(a) == Strict1(a, LAMBDA x : AnyNum)
@@ -154,8 +161,10 @@ NotInV(a, set) == Strict1(a, LAMBDA x : B(~\E e \in set : (~IsNull(e)) /\ Cmp(x,
 T == B(TRUE)
 F == B(FALSE)
 AndV(a, b) == IF IsErr(a) THEN a ELSE IF IsErr(b) THEN b
+              ELSE IF IsUndet(a) \/ IsUndet(b) THEN Undet
               ELSE IF a = F \/ b = F THEN F ELSE IF IsNull(a) \/ IsNull(b) THEN Null ELSE T
 OrV(a, b) == IF IsErr(a) THEN a ELSE IF IsErr(b) THEN b
+             ELSE IF IsUndet(a) \/ IsUndet(b) THEN Undet
              ELSE IF a = T \/ b = T THEN T ELSE IF IsNull(a) \/ IsNull(b) THEN Null ELSE F
 XorV(a, b) == Strict2(a, b, LAMBDA x, y : B(x[2] # y[2]))
 NotV(a) == Strict1(a, LAMBDA x : B(~x[2]))
